@@ -412,6 +412,7 @@ def run(ctx):
 
     from engine.run import borrow
     borrow(ctx, 'C05', ['PTR-ADVANCE'], 'a write path that converts every piece of a long request from the start of the caller buffer stores repeated data: what is read back is not what was written')
+    borrow(ctx, 'C11', ['BLOCK-RESTORE'], 'a header refresh that flushes the pending block of a block codec must put the codec counters back: otherwise the samples already accepted are overwritten by the next write and what is read back is not what was written')
 
 
 def varint_rule(ctx, prog, rule='VARINT'):
